@@ -54,11 +54,7 @@ The tree after "repopulate" command may contain polytomies.
 		var treefile goio.Closer
 		var treechan <-chan tree.Trees
 		var identicalgroups [][]string
-		var setgroups bool
-
-		setgroups = cmd.Flags().Changed("id-groups")
-
-		if !setgroups {
+		if groupfile == "none" {
 			err = fmt.Errorf("File with groups of identical tips must be provided")
 			io.LogError(err)
 			return
